@@ -757,6 +757,36 @@ static void neighCase(Rng& r, Ctx& c)
                    fmt("target %d set=%s ncand=%d", tranks[k], setStr(lib).c_str(), (int)t.res.cands.size()),
                    first2Applies(sc, g) ? &alt : nullptr, KEY_FIRST2);
     }
+    // ---- 1b. the data are edited IN PLACE (coordinates mirrored through the centre of the field) and the same NeighMoving is
+    // attached again to the same Db objects: it must answer like a fresh object attached to the edited Db (no memorised set, no
+    // search tree built on the previous coordinates)
+    if (!tranks.empty() && c.icase % 2 == 0)
+    {
+      int tr = tranks.back();
+      VectorInt before;
+      nm->select(tr, before); // tr becomes the memorised target
+      std::vector<double> lo(ndim, INFINITY), hi(ndim, -INFINITY);
+      for (int i = 0; i < sc.n; i++)
+        for (int d = 0; d < ndim; d++) { lo[d] = std::min(lo[d], sc.data[i].x[d]); hi[d] = std::max(hi[d], sc.data[i].x[d]); }
+      for (int i = 0; i < sc.n; i++)
+        for (int d = 0; d < ndim; d++) dbin->setCoordinate(i, d, lo[d] + hi[d] - sc.data[i].x[d]);
+      bool ok1 = nm->attach(dbin.get(), dbout) == 0;
+      std::unique_ptr<NeighMoving> fresh(makeNeigh(g, ball));
+      bool ok2 = fresh->attach(dbin.get(), dbout) == 0;
+      if (ok1 && ok2)
+      {
+        VectorInt reused, fr;
+        nm->select(tr, reused);
+        fresh->select(tr, fr);
+        std::vector<int> a1 = reused.getVector(), a2 = fr.getVector();
+        std::sort(a1.begin(), a1.end());
+        std::sort(a2.begin(), a2.end());
+        c.truth("reattach-after-edit", fmt("C06:reattach-after-in-place-edit:%s:differs-from-fresh-object", bn), a1 == a2,
+                fmt("target %d reused=%s fresh=%s", tr, setStr(a1).c_str(), setStr(a2).c_str()));
+      }
+      for (int i = 0; i < sc.n; i++)
+        for (int d = 0; d < ndim; d++) dbin->setCoordinate(i, d, sc.data[i].x[d]);
+    }
   }
 
   // ---- 2. through the kriging machinery
